@@ -13,6 +13,23 @@ CLAIMS = {
                      "prediction (L1 conformance).",
                 note=SUBS_NOTE),
 }
+_SUBS = "Subscription.tla model-checked by TLC against the %s monitor of SubsProps.tla within the bounds in the evidence file; TLC-generated behaviours (exhaustive to a depth bound and simulated) are replayed on the real server connection; the real observations are judged by the same monitor in TLC and compared step by step with the specification's prediction. "
+CLAIMS.update({
+    "C21": dict(engine="subs", level="model_checking", note=SUBS_NOTE,
+                text=_SUBS % "C21" + "Monitor: every response answers the oldest queued request, sequence numbers increase per subscription, "
+                     "delivered values are a prefix of the values the item sampled and equal them whenever nothing is pending (while "
+                     "publishing stayed enabled, the item stayed alive and its queue never overflowed)."),
+    "C26": dict(engine="subs", level="model_checking", note=SUBS_NOTE,
+                text=_SUBS % "C26" + "Monitor: no timer tick or publish request fails, for clocks that jump backwards/forwards and request "
+                     "timestamps in the past/future; BadTimeout only when now - timestamp exceeds the request's timeout."),
+    "C27": dict(engine="subs", level="model_checking", note=SUBS_NOTE,
+                text=_SUBS % "C27" + "Monitor: in a timer tick no subscription is answered while a subscription of higher priority is left "
+                     "with notifications queued."),
+    "C40": dict(engine="subs", level="model_checking", note=SUBS_NOTE,
+                text=_SUBS % "C40" + "Monitor: a sent, unacknowledged, unevicted notification is republished identically; after a Good "
+                     "acknowledgement it is gone; acknowledgement results are Good exactly for retained entries and "
+                     "BadSequenceNumberUnknown for unknown ones; refused publish requests acknowledge nothing."),
+})
 NOT_APPLICABLE = {
     "C41": "identity of a third-party YAML serializer over configuration records: no state, transition or case analysis for a TLA+ specification to own, and TLC cannot enumerate the string space that matters (DESIGN.md section 5)",
     "C42": "encode/decode fidelity of serde implementations with identity as the only oracle: outside what a TLA+ model decides (DESIGN.md section 5)",
